@@ -44,6 +44,10 @@ CHECKS = {
    text="Freshness of the state getters, purity of Get_results, the append-only pinned history of Save_Iter and Save/Set key coverage per simulation class are decided on the AST (all histories). Exact restoration is checked by bounded native histories for six simulation types: three solve/save steps, folder changes in between, reads, restores in several orders followed by further solves, static and dynamic; plus a Save/Load_Simu round trip.",
    note="pickle and the file system are external (assumed). Histories are bounded (3 steps, one mesh, one schedule per mode); user-held aliases of returned arrays are outside the property. MPI_SIZE == 1.",
    technique="contract-based verification: effect/freshness contracts on the AST + bounded histories as run-time contracts (exact equality)"),
+ "C12": dict(level="other", design="DESIGN.md 3/C12",
+   text="Index-bookkeeping helpers (_KeepsFeAxes, dot/ddot subscripts, broadcast decision table) are decided exhaustively on their finite domains. The operators are the real FeArray methods: on the fully colliding shape Ne=nPg=dim=2 with distinct symbolic entries every result entry is a polynomial identity; on the shape grid (all collisions, ranks 0-4, both operand orders, FeArray/ndarray/scalar/Field operands, 24 ufuncs, 11 reducers x all axes, dispatched functions, closed-form Det/Inv/Trace/TensorProd) they are compared with explicit per-(e,p) numpy loops on integer-valued data, including the result-type rule.",
+   note="Grid bounded to Ne, nPg, dim <= 3 (10 shapes quick, 27 thorough); integer sample data for the run-time tier (operations do not branch on values); numpy's tensordot/einsum is the per-point oracle.",
+   technique="contract-based verification: exhaustive finite-domain contracts + symbolic execution of the real operators on the colliding shape (bounded) + run-time contracts over the shape grid"),
 }
 NOT_APPLICABLE = {
 }
